@@ -49,14 +49,67 @@ def global_cost(metric, xs, ys, S, order='fsum'):
     return 0.0 if c < 0 else c
 
 
+def exact_global_cost(metric, xs, ys, S):
+    """The global cost as an exact rational number, or None where it is irrational (square roots, logarithms)."""
+    from fractions import Fraction
+    X = [Fraction(v) for v in xs]
+    Y = [Fraction(v) for v in ys]
+    n = len(X)
+    eps = Fraction(1, 10 ** 16)
+    s = Fraction(0)
+    nseg = 0
+    for a, b in zip(S, S[1:]):
+        nseg += 1
+        if b - a + 1 <= 2:
+            continue
+        for i in range(a, b + 1):
+            yh = Y[a] if X[b] == X[a] else Y[a] + (Y[b] - Y[a]) * (X[i] - X[a]) / (X[b] - X[a])
+            y = Y[i]
+            if metric == 'r2':
+                s += (y - yh) ** 2
+            elif metric == 'rmsle':
+                if y != yh:
+                    return None
+            elif metric == 'rmspe':
+                s += ((y - yh) / (y + eps)) ** 2
+            elif metric == 'rpd':
+                s += abs((y - yh) / (max(y, yh) + eps))
+            else:
+                s += 2 * abs(yh - y) / (abs(y) + abs(yh) + eps)
+    total = n + nseg - 1
+    if metric == 'r2':
+        mean = sum(Y) / n
+        tss = sum((v - mean) ** 2 for v in Y)
+        c = 1 - s if tss == 0 else 1 - s / tss
+        return max(c, Fraction(0))
+    if metric == 'rmsle':
+        return Fraction(0)
+    if metric == 'rmspe':
+        R = s / total
+        p, q = math.isqrt(R.numerator), math.isqrt(R.denominator)
+        return Fraction(p, q) if p * p == R.numerator and q * q == R.denominator else None
+    return s / total
+
+
 def robust_global_cost(metric, xs, ys, S):
+    """The float global cost if it is beyond doubt: the three summation orders agree AND the exact real value is that
+    very double.  (A cost such as 1/3 or log 3 is a different double under every evaluation form - x m + b versus
+    y0 + (x - x0) m, log a - log b versus log(a/b) - so a threshold equal to one of them decides nothing.)"""
+    from fractions import Fraction
     vals = set()
     for order in ('lr', 'rl', 'fsum'):
         try:
             vals.add(global_cost(metric, xs, ys, S, order))
         except (ValueError, ZeroDivisionError, OverflowError):
             return None
-    return vals.pop() if len(vals) == 1 else None
+    if len(vals) != 1:
+        return None
+    v = vals.pop()
+    try:
+        e = exact_global_cost(metric, xs, ys, S)
+    except (ZeroDivisionError, ValueError, OverflowError):
+        return None
+    return v if (e is not None and v == v and abs(v) != float('inf') and Fraction(v) == e) else None
 
 
 def interp(xs, ys, S, i):
